@@ -121,6 +121,59 @@ Theorem C19_refund_exact_over_histories :
 Proof. exact refund_exact_over_histories. Qed.
 Print Assumptions C19_refund_exact_over_histories.
 
+(* the bank invariant (no balance the model tracks is negative, the supply counters aside; every packet ever sent carries a
+   positive amount) holds in a fresh state and is preserved by EVERY operation *)
+Theorem C19_bank_invariant_preserved :
+  forall isender ops s, inv2 s -> inv2 (run isender ops s).
+Proof. exact inv2_run. Qed.
+Print Assumptions C19_bank_invariant_preserved.
+
+(* the refund clause with the non-negativity premises DISCHARGED from reachability (inv2 s0).  The guards that remain
+   (refund_guards2): conversion enabled; no voucher metadata — the named guard of finding C19-2's companion effect; and, only
+   for a transfer routed by the prefix rule over a channel that is not the token's own (c <> t), the escrow of c still holds
+   the voucher — kept as a premise: nothing but this packet's refund and plain refunds of other prefix-routed packets take
+   vouchers out of that escrow, which is not proved here *)
+Theorem C19_refund_exact_reachable :
+  forall isender s0 ops1 c a t n s2 ops2 o ops3,
+  inv s0 -> inv2 s0 ->
+  let s1 := run isender ops1 s0 in
+  let q := nextseq s1 c in
+  send_from_evm c a (DAlias t) n s1 = Ok s2 -> 0 <= a -> 0 <= c ->
+  forallb (quiet c q) ops2 = true ->
+  let s3 := run isender ops2 s2 in
+  refund_guards2 s3 c t n ->
+  o = Timeout c q \/ o = Ack c q false ->
+  let s4 := step isender s3 o in
+  let s5 := run isender ops3 s4 in
+  ibal s2 (a, AErc, t) = ibal s1 (a, AErc, t) - n /\
+  ibal s4 (a, AErc, t) = ibal s3 (a, AErc, t) + n /\
+  (forall k x, (k, x) <> (AErc, t) -> ibal s4 (a, k, x) = ibal s3 (a, k, x)) /\
+  in_rel (rel s4) c q = false /\ find_pk (commits s4) c q = None /\
+  count (is_reconv c q) (ilog s5) = 1%nat /\ in_rel (rel s5) c q = false.
+Proof. exact refund_exact_reachable. Qed.
+Print Assumptions C19_refund_exact_reachable.
+
+(* non-vacuity of the universal theorem: a concrete history — inbound FX, an EVM send of 30 (sequence 1), then unrelated traffic
+   (an inbound voucher with a memo call, a second EVM send that times out, a toggle of another pair, a plain send, a replayed
+   acknowledgement of the other packet), the timeout of sequence 1, then replays, a duplicate and an export / import — satisfies
+   EVERY premise; the numbers: 500 -> 470 -> 470 -> 500 ERC-20, one re-conversion, still 500 after the tail *)
+Theorem C19_refund_exact_nonvacuous :
+  let s1 := run ex_isender nv_ops1 ex_state in
+  let s2 := step ex_isender s1 (SendFromEvm 0 0 (DAlias 0) 30) in
+    inv ex_state /\ inv2 ex_state /\
+    send_from_evm 0 0 (DAlias 0) 30 s1 = Ok s2 /\ nextseq s1 0 = 1 /\
+    forallb (quiet 0 1) nv_ops2 = true /\
+    refund_guards2 (run ex_isender nv_ops2 s2) 0 0 30 /\
+    let s3 := run ex_isender nv_ops2 s2 in
+    let s4 := step ex_isender s3 (Timeout 0 1) in
+    let s5 := run ex_isender nv_ops3 s4 in
+    ibal s1 (0, AErc, 0) = 500 /\ ibal s2 (0, AErc, 0) = 470 /\ ibal s3 (0, AErc, 0) = 470 /\ ibal s4 (0, AErc, 0) = 500 /\
+    ibal s3 (2, AErc, 10) = 25 /\ length (commits s3) = 2%nat /\
+    in_rel (rel s4) 0 1 = false /\ find_pk (commits s4) 0 1 = None /\ length (commits s4) = 1%nat /\
+    count (is_reconv 0 1) (ilog s5) = 1%nat /\ ibal s5 (0, AErc, 0) = 500.
+Proof. exact refund_exact_nonvacuous. Qed.
+Print Assumptions C19_refund_exact_nonvacuous.
+
 (* the same at one state: a recorded transfer in flight, the guards => the delivery pays exactly *)
 Theorem C19_refund_exact :
   forall isender s c q a t n,
